@@ -13,6 +13,10 @@ pub enum Mode {
     Ordinary,
     /// special-value lattice in the hot slot (or, with no hot slot, in random slots)
     Lattice,
+    /// like `Lattice` but only the finite members (subnormals, +-0, ties, 2^23 / 2^31 neighbourhood, MAX ...)
+    LatticeFinite,
+    /// ordinary values all multiplied by 2^e: uniformly tiny or huge operands (thresholds, underflow, overflow)
+    Scaled(i32),
 }
 
 #[derive(Clone, Copy, PartialEq, Debug)]
@@ -50,6 +54,19 @@ pub struct Src {
 impl Src {
     pub fn new(seed: u64, mode: Mode) -> Src {
         Src { rng: Rng::new(seed), mode, hot: None, slot: 0, hidden: Hidden::Natural, pool: HashMap::new(), pool_prob: 0.0, buf_len: 16, index_range: 2, log: vec![], keep_log: false, perturb: None, max_abs: 0.0, hidden_draws: 0 }
+    }
+    /// the input mode of C07's single calls is a function of the call's seed, so both builds (and a replay) agree on it
+    pub fn for_seed(seed: u64) -> Src {
+        let h = vcommon::rng::mix(seed, 0x6d6f_6465);
+        let mut s = match h % 8 {
+            0..=3 => Src::new(seed, Mode::Ordinary),
+            4 => { let mut s = Src::new(seed, Mode::LatticeFinite); s.hot = Some(((h >> 8) % 6) as usize); s }
+            5 => Src::new(seed, Mode::LatticeFinite),
+            6 => Src::new(seed, Mode::Scaled([-75, -70, -66, -64, -62, -60, -50, -40][((h >> 8) % 8) as usize])),
+            _ => Src::new(seed, Mode::Scaled([40, 50, 58, 60, 62, 63, 64, 66][((h >> 8) % 8) as usize])),
+        };
+        s.slot = 0;
+        s
     }
     pub fn reseed(&mut self, seed: u64) {
         self.rng = Rng::new(seed);
@@ -102,14 +119,18 @@ impl Src {
         let slot = self.slot;
         self.slot += 1;
         let lat = match self.mode {
-            Mode::Lattice => match self.hot {
+            Mode::Lattice | Mode::LatticeFinite => match self.hot {
                 Some(h) => h == slot,
                 None => self.rng.below(3) == 0,
             },
-            Mode::Ordinary => false,
+            Mode::Ordinary | Mode::Scaled(_) => false,
         };
         let v: S = if lat {
-            *self.rng.pick(S::lattice())
+            let mut x = *self.rng.pick(S::lattice());
+            if self.mode == Mode::LatticeFinite {
+                while !x.finite() { x = *self.rng.pick(S::lattice()); }
+            }
+            x
         } else {
             match self.rng.below(8) {
                 0 => S::of(self.rng.int_in(-4, 4) as f64),
@@ -117,6 +138,10 @@ impl Src {
                 2 => S::of(self.rng.range(-1.0, 1.0)),
                 _ => S::of(self.rng.logmag(-4.0, 4.0)),
             }
+        };
+        let v = match self.mode {
+            Mode::Scaled(e) => { let y = S::of(v.f64() * (e as f64).exp2()); if y.finite() { y } else { v } }
+            _ => v,
         };
         let v = match &mut self.perturb {
             Some(pr) if v.finite() && v.f64() != 0.0 => {
